@@ -120,9 +120,13 @@ func (ex *Exec) binop(th *Thread, op token.Token, xt types.Type, a, b Value, yt 
 			}
 			panic(unsupported("operation on opaque string"))
 		}
+		if op == token.ADD {
+			return concatStr(x, y)
+		}
+		if x.sym != nil || y.sym != nil || x.ite != nil || y.ite != nil {
+			panic(unsupported("ordering comparison of symbolic strings"))
+		}
 		switch op {
-		case token.ADD:
-			return strV{s: x.s + y.s}
 		case token.LSS:
 			return tc.Bool(x.s < y.s)
 		case token.LEQ:
